@@ -4,7 +4,7 @@
    signature under the published CA material. *)
 From Coq Require Import ZArith.
 From KM Require Import Base.Bytes Model.Auth Model.Certgen Model.CertgenCases Model.CertgenIdent Model.CertgenEnv
-                       Proofs.CertgenSpec Proofs.CertgenAuth Proofs.Certgen Proofs.CertgenCert Proofs.CertgenIdent Proofs.CertgenEnv.
+                       Model.DerPatch Proofs.DerPatch Proofs.CertgenSpec Proofs.CertgenAuth Proofs.Certgen Proofs.CertgenCert Proofs.CertgenIdent Proofs.CertgenEnv.
 From KM Require Model.Seal.
 Open Scope N_scope.
 
@@ -202,6 +202,49 @@ Print Assumptions c02_typed_identity_refuted.
 Theorem c02_old_krb_refuted : exists realm user, krb_san_old realm user <> Some (realm, user).
 Proof. exact old_krb_refuted. Qed.
 Print Assumptions c02_old_krb_refuted.
+
+(* ---- the Kerberos SAN byte patching, lib/certgen's own byte-level code (Model/DerPatch.v is
+   changePrintableStringToGeneralString + derWalk line by line; krb_der is what asn1.Marshal hands it for
+   (realm, name)).  For EVERY realm and name - short and long length forms, nested - whose encoding stays below
+   the 2^24 bytes that derWalk's three length octets can express: the function succeeds, the result has the same
+   length, and input and result are the SAME bytes  pre ++ [tag] ++ len ++ realm ++ mid ++ [tag] ++ len ++ name
+   with the two string tags (PrintableString 19 or UTF8String 12) replaced by GeneralString 27; krb_pre and krb_mid
+   are made of headers only and do not mention the tags. *)
+Theorem c02_krb_patch_tags_only : forall realm name,
+  blen (krb_der realm name) < 16777216 ->
+  patch (krb_der realm name) = Some (retag realm name) /\
+  length (retag realm name) = length (krb_der realm name) /\
+  krb_der realm name = krb_pre realm name ++ tlv (str_tag realm) realm ++ krb_mid name ++ tlv (str_tag name) name /\
+  retag realm name = krb_pre realm name ++ tlv 27 realm ++ krb_mid name ++ tlv 27 name.
+Proof. exact krb_patch_tags_only. Qed.
+Print Assumptions c02_krb_patch_tags_only.
+
+(* the size condition in terms of the two strings (81 bounds what the eleven headers, the object identifier and the
+   integer can take) *)
+Theorem c02_krb_patch_tags_only_sizes : forall realm name,
+  blen realm + blen name + 81 < 16777216 -> patch (krb_der realm name) = Some (retag realm name).
+Proof. exact krb_patch_tags_only_sizes. Qed.
+Print Assumptions c02_krb_patch_tags_only_sizes.
+
+(* on ANY input (truncated, mutated, not DER at all) the function returns bytes or an error: no slice index is
+   ever out of range (every der[i] of the Go code is an nth_error in the model; None there is the outcome Panic) *)
+Theorem c02_krb_patch_total : forall b, patch_res b <> Panic.
+Proof. exact krb_patch_total. Qed.
+Print Assumptions c02_krb_patch_total.
+
+Theorem c02_krb_patch_length : forall b o, patch b = Some o -> length o = length b.
+Proof. exact krb_patch_length. Qed.
+Print Assumptions c02_krb_patch_length.
+
+(* the function before 0889d74 (fixed offsets 16 and 31+len(realm)) on EXAMPLE.COM and a 100-byte name: not the
+   retagged bytes; the function as it is now: the retagged bytes *)
+Theorem c02_old_krb_patch_refuted :
+  let realm := [69; 88; 65; 77; 80; 76; 69; 46; 67; 79; 77] in
+  let name := repeat 110 100 in
+  patch_old (blen realm) (krb_der realm name) <> Ok (retag realm name) /\
+  patch (krb_der realm name) = Some (retag realm name).
+Proof. exact old_patch_refuted. Qed.
+Print Assumptions c02_old_krb_patch_refuted.
 
 (* ---- non-vacuity: with no templates the extension map is the five standard names; a
    template ${USERNAME}-style pair is substituted, a colliding later pair overrides it, an
